@@ -6,7 +6,8 @@ RULE = ("scripts: payload sequences with sizes {0,1,3,4,5,511,512,513,70000} enc
         "(1 cut) and at random multi-cuts, with per-read limits 1,2,3,7; (b) would-block in the middle of an item for "
         "sync and async reads; EOF/error mid-item; (c) hostile prefixes {2^30, 2^30+1, 2^32-1} and random bytes; (d) writes: "
         "sync/async, partial-accept transports (1,2,5 bytes per call), failure after k bytes for every k, parked async "
-        "writes. distinct = (readable, pending, decodeReset, parked read/write) model states; non-trivial = an item is "
+        "writes; (e) the same CodecConn over a real sonic.Conn (loopback TCP, 16 KiB send buffer): items of 300 KB..4 MB between "
+        "small ones, final outcomes only. distinct = (readable, pending, decodeReset, parked read/write) model states; non-trivial = an item is "
         "outstanding while more bytes are buffered")
 EXHAUSTIVE = {"quick": False, "thorough": False}
 CLAUSES = {"1": "delivered item is not the next payload of the byte stream", "2": "an item was delivered that the stream does not contain",
